@@ -461,25 +461,56 @@ End WithCodec.
 
 Definition hdr_ext2 (h : list N) : N := le_dec (firstn 8 (skipn 25 h)).
 
-Inductive ev := EvDocs (i : nat) | EvMeta (i : nat).      (* i = index of the bulk in the group *)
+(* i = index of the bulk in the group. A unit of ActiveWriter.Write is
+     EvSnap i                         read both writer offsets (the rollback target)
+     EvDocs i ; EvMeta i              the two block writes                         (success)
+     EvFailDocs i cut ; EvRollback i  the docs write fails after cut bytes         (failure)
+     EvDocs i ; EvFailMeta i cut ; EvRollback i   the meta write fails             (failure)
+   FileWriter advances its offset by the full length before the write can fail; EvRollback stores
+   the snapshot back and cuts the meta file, then the docs file, to it. *)
+Inductive ev :=
+| EvSnap (i : nat) | EvDocs (i : nat) | EvMeta (i : nat)
+| EvFailDocs (i cut : nat) | EvFailMeta (i cut : nat) | EvRollback (i : nat).
 
 Record wst := WSt { w_docs : file; w_meta : file; w_offd : nat; w_offm : nat;
-                    w_pend : list (nat * nat) }.          (* bulk -> docs offset it reserved *)
+                    w_pend : list (nat * nat);            (* bulk -> docs offset it reserved *)
+                    w_snap : list (nat * (nat * nat)) }.  (* bulk -> offsets it snapshotted *)
 
 Definition no_bulk := Bulk [] [] 0 [] 0.
 
 Definition ev_step (cbs : list bulk) (w : wst) (e : ev) : wst :=
   match e with
+  | EvSnap i =>
+      WSt (w_docs w) (w_meta w) (w_offd w) (w_offm w) (w_pend w) ((i, (w_offd w, w_offm w)) :: w_snap w)
   | EvDocs i =>
       let b := nth i cbs no_bulk in
       WSt (write_at (w_docs w) (w_offd w) (dblock b)) (w_meta w)
-          (w_offd w + length (dblock b)) (w_offm w) ((i, w_offd w) :: w_pend w)
+          (w_offd w + length (dblock b)) (w_offm w) ((i, w_offd w) :: w_pend w) (w_snap w)
   | EvMeta i =>
       match find (fun x => Nat.eqb (fst x) i) (w_pend w) with
       | Some x =>
           let b := nth i cbs no_bulk in
           WSt (w_docs w) (write_at (w_meta w) (w_offm w) (mblock b (snd x)))
-              (w_offd w) (w_offm w + length (mblock b (snd x))) (w_pend w)
+              (w_offd w) (w_offm w + length (mblock b (snd x))) (w_pend w) (w_snap w)
+      | None => w
+      end
+  | EvFailDocs i cut =>
+      let b := nth i cbs no_bulk in
+      WSt (write_at (w_docs w) (w_offd w) (firstn cut (dblock b))) (w_meta w)
+          (w_offd w + length (dblock b)) (w_offm w) (w_pend w) (w_snap w)
+  | EvFailMeta i cut =>
+      match find (fun x => Nat.eqb (fst x) i) (w_pend w) with
+      | Some x =>
+          let b := nth i cbs no_bulk in
+          WSt (w_docs w) (write_at (w_meta w) (w_offm w) (firstn cut (mblock b (snd x))))
+              (w_offd w) (w_offm w + length (mblock b (snd x))) (w_pend w) (w_snap w)
+      | None => w
+      end
+  | EvRollback i =>
+      match find (fun x => Nat.eqb (fst x) i) (w_snap w) with
+      | Some x =>
+          WSt (firstn (fst (snd x)) (w_docs w)) (firstn (snd (snd x)) (w_meta w))
+              (fst (snd x)) (snd (snd x)) (w_pend w) (w_snap w)
       | None => w
       end
   end.
@@ -487,8 +518,22 @@ Definition ev_step (cbs : list bulk) (w : wst) (e : ev) : wst :=
 Definition run_events (cbs : list bulk) (w : wst) (evs : list ev) : wst :=
   fold_left (ev_step cbs) evs w.
 
+(* one unit, as the mutex (with the snapshot taken inside it) lets it run *)
+Inductive cunit := UOk (i : nat) | UFail (i : nat) (in_meta : bool) (cut : nat).
+
+Definition unit_events (u : cunit) : list ev :=
+  match u with
+  | UOk i => [EvSnap i; EvDocs i; EvMeta i]
+  | UFail i false cut => [EvSnap i; EvFailDocs i cut; EvRollback i]
+  | UFail i true cut => [EvSnap i; EvDocs i; EvFailMeta i cut; EvRollback i]
+  end.
+
 (* the interleavings the mutex allows: whole units, in lock-acquisition order *)
-Definition locked (order : list nat) : list ev := flat_map (fun i => [EvDocs i; EvMeta i]) order.
+Definition locked (us : list cunit) : list ev := flat_map unit_events us.
+
+(* the bulks that are acknowledged *)
+Definition unit_ok (cbs : list bulk) (u : cunit) : list bulk :=
+  match u with UOk i => [nth i cbs no_bulk] | UFail _ _ _ => [] end.
 
 (* ---------- the invariant Replay relies on, as a checkable statement ----------
    "the i-th meta block (in file order) describes the docs block that starts at the sum of the
